@@ -73,6 +73,7 @@ func runC04(r *engine.Run) {
 	r.Rule("ERR-guard", "see C17, applied to the whole package including the node stores and the save path: a failed store write or read is never turned into success")
 	r.Rule("ERR-dropped", "see C17: the error of every store operation (PutNode, MultiPutNode, DeleteNode, GetNode, batch writes) is looked at")
 	r.Rule("DOM-recorded", "in ChangeCollector.AddChange every store into Changes is keyed by the new node's hash and holds a change whose New field was set to the new node, and every return is reached through such a store except the cancel-out (new node equal to the Old of the chain it closes, bytes.Equal tested true)")
+	r.Rule("DOM-mergeall", "see C03: mergeChanges replays every change of the child through insertNode (a skipped change is missing from the block's change set and hence from the save)")
 	r.NotDec = append(r.NotDec, "completeness of the change set for every history (needs the map semantics of C01)", "RocksDB's own crash behaviour")
 	whoCollect(r)
 	orderKeySave(r)
@@ -83,6 +84,7 @@ func runC04(r *engine.Run) {
 	domSameKey(r, "DOM-samekey")
 	errGuard(r, "ERR-guard", "ERR-dropped", funcsOfPkg(r, pkgUtil), 20)
 	domRecorded(r, "DOM-recorded")
+	domMergeAll(r, "DOM-mergeall")
 }
 
 func whoCollect(r *engine.Run) {
@@ -221,13 +223,13 @@ func whoCollect(r *engine.Run) {
 			}
 			engine.Instrs(f, func(in ssa.Instruction) {
 				c, ok := in.(*ssa.Call)
-				if !ok || !extCalleeIs(c, "bytes", "", "Equal") {
+				if !ok || !isBytesEq(c) {
 					return
 				}
 				a, b := stripCT(c.Call.Args[0]), stripCT(c.Call.Args[1])
 				okPair := isInvokeOf(a, "GetHashBytes", isValue(oldP)) && b == hashNew || isInvokeOf(b, "GetHashBytes", isValue(oldP)) && a == hashNew
 				if okPair {
-					if v, had := p[engine.ValKey(c)]; had && v {
+					if v, had := pathTruth(p, c); had && v {
 						eq = true
 					}
 				}
@@ -558,7 +560,7 @@ func domRecorded(r *engine.Run, rule string) {
 	// the cancel-out comparison
 	var cancel []*ssa.Call
 	engine.Instrs(f, func(in ssa.Instruction) {
-		if c, ok := in.(*ssa.Call); ok && extCalleeIs(c, "bytes", "", "Equal") {
+		if c, ok := in.(*ssa.Call); ok && isBytesEq(c) {
 			cancel = append(cancel, c)
 		}
 	})
@@ -574,7 +576,7 @@ func domRecorded(r *engine.Run, rule string) {
 			for _, p := range paths {
 				cancelled := false
 				for _, c := range cancel {
-					if v, had := p[engine.ValKey(c)]; had && v {
+					if v, had := pathTruth(p, c); had && v {
 						cancelled = true
 					}
 				}
